@@ -279,14 +279,14 @@ func (r *renderer) amount(a Amount, role string) {
 		} else {
 			r.mark("commodity", role, a.Sym, sym)
 			r.w(blanks(a.Gap))
-			r.mark("number", role, "", sign+a.Num.Text)
+			r.signedNumber(role, sign, a.Num.Text)
 		}
 	case SideRight:
-		r.mark("number", role, "", sign+a.Num.Text)
+		r.signedNumber(role, sign, a.Num.Text)
 		r.w(blanks(a.Gap))
 		r.mark("commodity", role, a.Sym, sym)
 	default:
-		r.mark("number", role, "", sign+a.Num.Text)
+		r.signedNumber(role, sign, a.Num.Text)
 	}
 	// whole-amount span
 	full := r.cur.String()[len(before):]
@@ -295,6 +295,15 @@ func (r *renderer) amount(a Amount, role string) {
 	sp.B1, sp.R1, sp.U1 = sp.B0+len(full), sp.R0+utf8.RuneCountInString(full), sp.U0+u16len(full)
 	// insert before its parts so that lookups by kind stay simple
 	r.spans = append(r.spans[:startSpans], append([]Span{sp}, r.spans[startSpans:]...)...)
+}
+
+// signedNumber marks the number with its sign ("number") and without ("digits").
+func (r *renderer) signedNumber(role, sign, text string) {
+	b := len(r.cur.String())
+	r.mark("number", role, "", sign+text)
+	if sign != "" {
+		r.spanAt("digits", role, "", b+len(sign), text)
+	}
 }
 
 func (r *renderer) comment(c *Comment, role string) {
@@ -340,7 +349,7 @@ func (r *renderer) tx(t *Tx) {
 	gap := blanks(max(1, t.Gap))
 	r.mark("date", "header", "", t.Date.String())
 	if t.Date2 != nil {
-		r.w("=")
+		r.mark("operator", "header", "=", "=")
 		r.mark("date2", "header", "", t.Date2.String())
 	}
 	if t.Status != "" {
@@ -476,8 +485,12 @@ func (r *renderer) entryText(e *Entry) {
 		r.mark("commodity", "directive", e.Sym, sym)
 		r.w(e.Trail)
 		r.nl()
-		r.w("    format ")
+		r.w("    ")
+		b := len(r.cur.String())
+		r.w("format ")
 		r.formatSpan(e)
+		// the sub-directive line is one free-text lexeme
+		r.spanAt("text", "format", "", b, "format "+e.Format)
 		r.nl()
 	case EntryInclude:
 		r.mark("directive", "directive", "include", "include")
@@ -540,6 +553,20 @@ func (r *renderer) formatSpan(e *Entry) {
 	r.mark("format", "format", e.Sym, e.Format)
 	if i := strings.Index(e.Format, sym); i >= 0 && sym != "" {
 		r.spanAt("commodity", "format", e.Sym, b+i, sym)
+	}
+	// the number inside the format is a number lexeme too
+	rest := strings.Replace(e.Format, sym, strings.Repeat("\x00", len(sym)), 1)
+	first, last := -1, -1
+	for i := 0; i < len(rest); i++ {
+		if rest[i] >= '0' && rest[i] <= '9' {
+			if first < 0 {
+				first = i
+			}
+			last = i
+		}
+	}
+	if first >= 0 {
+		r.spanAt("number", "format", "", b+first, e.Format[first:last+1])
 	}
 }
 
